@@ -81,7 +81,7 @@ def canon(v):
     import math
 
     if v is None:
-        return None
+        return ("0", 0)
     if isinstance(v, bool):
         return ("b", v)
     if isinstance(v, int):
